@@ -17,7 +17,7 @@ Lemma wf_get_by_keypath : forall ks v x, wf_shape v = true -> get_by_keypath_t v
 Proof.
   induction ks as [|k r IH]; intros v x Hv H; cbn [get_by_keypath_t] in H; [injection H as <-; exact Hv|].
   destruct k as [i|n|n], v as [|b|s|nm|l|o]; try discriminate H.
-  - cbn [wf_shape] in Hv. destruct ((lenZ l <? i) || (lenZ l + i <? 0))%Z; [discriminate H|].
+  - cbn [wf_shape] in Hv. destruct (GBK_T_REJECT _ _); [discriminate H|].
     destruct (nthZ l _) as [y|] eqn:E; [|discriminate H]. apply (IH y x); [eapply wf_nthZ; eauto|exact H].
   - destruct (assoc_lookup n o) as [y|] eqn:E; [|discriminate H]. apply (IH y x); [|exact H].
     cbn [wf_shape] in Hv. apply andb_true_iff in Hv. destruct Hv as [_ M]. apply (members_values o y M). apply (lookup_member n o y E).
@@ -51,13 +51,13 @@ Lemma wf_del_keypath fuel : forall v ks v', wf_shape v = true -> del_keypath fue
 Proof.
   induction fuel as [|f IH]; intros v ks v' Hv H; cbn [del_keypath] in H; [discriminate H|].
   destruct v as [|b|s|nm|l|o]; try discriminate H; destruct ks as [|k r]; try discriminate H; destruct k as [i|n|n]; try discriminate H.
-  - cbn [wf_shape] in Hv. destruct ((resolve i (lenZ l) <? 0) || (lenZ l <=? resolve i (lenZ l)))%Z; [discriminate H|].
+  - cbn [wf_shape] in Hv. destruct (DKP_T_SKIP _ _); [discriminate H|].
     destruct r as [|k2 r2].
     + injection H as <-. cbn [wf_shape]. apply forallb_remove_nth. exact Hv.
     + destruct (nth_opt l _) as [x|] eqn:E; [|discriminate H]. destruct (is_container x); [|discriminate H].
       destruct (del_keypath f x (k2 :: r2)) as [x'|] eqn:E2; [|discriminate H]. injection H as <-. cbn [wf_shape].
       apply forallb_replace_nth; [exact Hv|]. apply (IH x (k2 :: r2) x'); [|exact E2].
-      rewrite forallb_forall in Hv. apply Hv. revert E. generalize (Z.to_nat (resolve i (lenZ l))). clear.
+      rewrite forallb_forall in Hv. apply Hv. revert E. generalize (Z.to_nat (DKP_T_RESOLVE i (lenZ l))). clear.
       induction l as [|y l IHl]; intros [|m] E; cbn [nth_opt] in E; try discriminate; [injection E as ->; left; reflexivity|right; eapply IHl; exact E].
   - cbn [wf_shape] in Hv. pose proof Hv as Hv0. apply andb_true_iff in Hv. destruct Hv as [S M]. fold member_ok in M.
     change (forallb (fun kv : list N * value => bytes_okb (fst kv) && utf8_valid (fst kv) && wf_shape (snd kv)) o) with (forallb member_ok o) in M.
